@@ -1,6 +1,7 @@
 package shaping
 
 import (
+	"github.com/go-text/typesetting/di"
 	"golang.org/x/image/math/fixed"
 )
 
@@ -98,6 +99,24 @@ func (run *Output) AddLetterSpacing(additionalSpacing fixed.Int26_6, isStartRun,
 // does not run RecomputeAdvance
 func (run *Output) trimStartLetterSpacing() {
 	if len(run.Glyphs) == 0 {
+		return
+	}
+	if run.Direction.Progression() == di.TowardTopLeft {
+		// the (logical) start of a right to left run is the end side of its last glyph
+		L := len(run.Glyphs)
+		spacing := run.Glyphs[L-1].endLetterSpacing
+		if spacing == 0 {
+			return
+		}
+		// the glyphs are shared with the run this one was cut from: work on a copy
+		run.Glyphs = append([]Glyph(nil), run.Glyphs...)
+		lastG := &run.Glyphs[L-1]
+		if run.Direction.IsVertical() {
+			lastG.YAdvance -= spacing
+		} else {
+			lastG.XAdvance -= spacing
+		}
+		lastG.endLetterSpacing = 0
 		return
 	}
 	if run.Glyphs[0].startLetterSpacing == 0 {
